@@ -50,6 +50,74 @@ def sym_repr(s):
     return conv(s)
 
 
+def _canon(x, depth=3):
+    """process-independent summary of a value (no addresses, no hash order)"""
+    import enum
+    if x is None or isinstance(x, (bool, int, float, str, bytes)):
+        return x if not isinstance(x, str) else x[:80]
+    if isinstance(x, enum.Enum):
+        return str(x)
+    if depth <= 0:
+        return type(x).__name__
+    if isinstance(x, (list, tuple)):
+        return [type(x).__name__, len(x)] + [_canon(e, depth - 1) for e in list(x)[:30]]
+    if isinstance(x, (set, frozenset)):
+        return ['set', len(x)] + sorted(json.dumps(_canon(e, depth - 1), sort_keys=True, default=str) for e in list(x)[:30])
+    if isinstance(x, dict):
+        return ['dict', len(x)] + sorted(json.dumps([_canon(k, 1), _canon(v, depth - 1)], sort_keys=True, default=str) for k, v in list(x.items())[:60])
+    if callable(x) and not hasattr(x, '__dict__'):
+        return type(x).__name__
+    try:
+        d = vars(x)
+    except TypeError:
+        return type(x).__name__
+    return [type(x).__name__] + sorted(json.dumps([k, _canon(v, depth - 1)], sort_keys=True, default=str) for k, v in list(d.items())[:40]
+                                       if not k.startswith('__'))
+
+
+# process-wide state that API calls are expected to rewrite (tracked separately by the monitors)
+_EXPECTED_TO_CHANGE = ('cnl2asp.specification.signaturemanager.SignatureManager.signatures',)
+
+
+def generic_frame():
+    """every mutable container that lives at module level, at class level or in a default argument anywhere in the cnl2asp package:
+    none of them may change across API calls (caches, registries, shared defaults)"""
+    import inspect
+    import types
+    out = {}
+
+    def defaults(f, where):
+        for i, dv in enumerate(f.__defaults__ or ()):
+            if isinstance(dv, (list, dict, set)) or (hasattr(dv, '__dict__') and not inspect.isclass(dv) and not callable(dv)):
+                out[f'{where}.__defaults__[{i}]'] = _canon(dv)
+        for k, dv in (f.__kwdefaults__ or {}).items():
+            if isinstance(dv, (list, dict, set)):
+                out[f'{where}.__kwdefaults__[{k}]'] = _canon(dv)
+    for mname, mod in sorted(sys.modules.items()):
+        if mod is None or not (mname == 'cnl2asp' or mname.startswith('cnl2asp.')):
+            continue
+        for name, val in sorted(vars(mod).items(), key=lambda kv: kv[0]):
+            if name.startswith('__'):
+                continue
+            if isinstance(val, (list, dict, set)):
+                out[f'{mname}.{name}'] = _canon(val)
+            elif inspect.isclass(val) and getattr(val, '__module__', None) == mname:
+                for an, av in sorted(vars(val).items(), key=lambda kv: kv[0]):
+                    if an.startswith('__') and an != '__init__':
+                        continue
+                    key = f'{mname}.{val.__name__}.{an}'
+                    if key in _EXPECTED_TO_CHANGE:
+                        continue
+                    if isinstance(av, (list, dict, set)):
+                        out[key] = _canon(av)
+                    f = av.__func__ if isinstance(av, (staticmethod, classmethod)) else av
+                    if isinstance(f, types.FunctionType):
+                        defaults(f, key)
+            elif isinstance(val, types.FunctionType) and getattr(val, '__module__', None) == mname:
+                defaults(val, f'{mname}.{name}')
+    return out
+
+
 def snapshot():
     from cnl2asp.specification.signaturemanager import SignatureManager
     from cnl2asp.utility.utility import Utility
@@ -74,6 +142,7 @@ def snapshot():
             'ConditionComponent.default': len(dflt_cond),
             'ASPRule.default_body': len(dflt_rule.conjunction),
             'NULL_VALUE': Utility.NULL_VALUE, 'DEFAULT_ATTRIBUTE': Utility.DEFAULT_ATTRIBUTE,
+            'generic': generic_frame(),
         },
     }
 
